@@ -39,6 +39,7 @@ type recSaver struct {
 	stopAt int
 	every  int // ShouldSave answers true every `every` calls (1: always)
 	calls  int
+	onSave func(idx int) // called while checkpoint idx is being handed over (the patcher is inside Save)
 }
 
 func (s *recSaver) ShouldSave() bool {
@@ -51,6 +52,9 @@ func (s *recSaver) Save(c *patcher.Checkpoint) (patcher.AfterSaveAction, error) 
 		return patcher.AfterSaveStop, fmt.Errorf("checkpoint not serialisable: %v", err)
 	}
 	s.saved = append(s.saved, buf.Bytes())
+	if s.onSave != nil {
+		s.onSave(len(s.saved) - 1)
+	}
 	if s.stopAt >= 0 && len(s.saved) > s.stopAt {
 		return patcher.AfterSaveStop, nil
 	}
@@ -261,6 +265,16 @@ func c03One(env *Env, m *wvlib.Model, c *C03Case) {
 		stopAt = nck - 1 // the crash must fall inside the patching phase: Commit is not resumable
 	}
 	sv1 := &recSaver{stopAt: stopAt, every: 1}
+	// what the disk holds at the very moment checkpoint k is handed over (a process killed right there leaves this)
+	snapOut, snapStage := base+"/snap", base+"/snap.stage"
+	snapK := -1
+	sv1.onSave = func(idx int) {
+		if idx == k {
+			snapK = idx
+			copyTree(out1, snapOut)
+			copyTree(stage1, snapStage)
+		}
+	}
 	done1, err := c03Session(patch, od, out1, stage1, c.Bowl, nil, sv1)
 	if err != nil && !strings.Contains(err.Error(), "stopped after save") {
 		env.R.Violate("interrupted-run-fails:"+tag, err.Error(), c)
@@ -344,6 +358,21 @@ func c03One(env *Env, m *wvlib.Model, c *C03Case) {
 	t1, _ := wvlib.ReadTree(out1)
 	if d := wvlib.DiffTrees(t1, t0); d != "" {
 		env.R.Violate("resumed-result-differs:"+tag, fmt.Sprintf("checkpoint %d of %d, lag %d, truncate %d: %s", k, nck, c.Lag, c.Truncate, d), c)
+	}
+	// 4. the process is killed while checkpoint k is being handed over: resume on the disk as it was then
+	if snapK == k {
+		if ck, err := decodeCheckpoint(sv1.saved[k]); err == nil {
+			committed, err := c03Session(patch, od, snapOut, snapStage, c.Bowl, ck, &recSaver{stopAt: -1, every: 1})
+			if err != nil || !committed {
+				env.R.Violate("resume-fails:killed-at-hand-off:"+tag, fmt.Sprintf("checkpoint %d of %d: %v", k, nck, err), c)
+			} else {
+				t2, _ := wvlib.ReadTree(snapOut)
+				if d := wvlib.DiffTrees(t2, t0); d != "" {
+					env.R.Violate("resumed-result-differs:killed-at-hand-off:"+tag, fmt.Sprintf("checkpoint %d of %d, disk as it was when the checkpoint was handed over: %s", k, nck, d), c)
+				}
+			}
+			env.R.Count("resumed-on-disk-as-of-hand-off:"+tag, 1)
+		}
 	}
 	env.R.Eval(c.Seed^uint64(c.K)<<20^uint64(c.Lag)<<30, true)
 	env.R.Count("resumed:"+tag, 1)
